@@ -33,6 +33,23 @@ MLOCK = 'PersistenceState.manifest_lock'
 MUTATORS = ['HnswBackend::insert', 'HnswBackend::delete', 'HnswBackend::update_metadata', 'HnswBackend::batch_delete']
 
 
+def named_bool_expanded(body, preds, ov):
+    """Switch-edge predicates with a guard that was given a name (`let stale = a > b; if stale {..}`) replaced by the comparison it stands for: a test on a
+    bool variable that has exactly ONE definition (a `let`) is the same test as the expression itself; a bool that is assigned more than once keeps its
+    variable-level predicate (and the rule that looks for the comparison fails closed as before)."""
+    out = []
+    for tg, p in preds:
+        m = re.match(r'^(!?)bool\[var:(\w+)\]$', p)
+        if m:
+            ls = [l for l in body.var_local(m.group(2)) if body.locals[l] == 'bool']
+            if len(ls) == 1 and len(body.defs.get(ls[0], [])) == 1 and body.defs[ls[0]][0][2] == 'assign':
+                atom, neg = flow.atom_of(ov.of_rvalue(body.defs[ls[0]][0][3]['rv'], 0, frozenset()), body)
+                if not atom.startswith('bool['):
+                    p = ('!' if neg != (m.group(1) == '!') else '') + atom
+        out.append((tg, p))
+    return out
+
+
 def manifest_rmw(ctx, prog, rid, lm):
     """manifest read-modify-write atomicity (C09.R3; shared with C01.R9: a lost MANIFEST update un-lists a log segment that holds acknowledged writes)."""
     MLOCK_ = MLOCK
@@ -195,7 +212,7 @@ def run(ctx, prog):
     st_edges = []
     for i, blk in enumerate(cs.blocks):
         if blk['t']['k'] == 'switch' and i in cs.live_blocks():
-            for tg, p in flow.switch_edge_predicates(cs, i, ov):
+            for tg, p in named_bool_expanded(cs, flow.switch_edge_predicates(cs, i, ov), ov):
                 if re.match(r'^!?cmp\[\+ var:last_wal_seq - var:latest_snapshot_seq (<=|>=) -?\d+\]$', p) or \
                         re.match(r'^!?cmp\[\+ var:latest_snapshot_seq - var:last_wal_seq (<=|>=) -?\d+\]$', p):
                     st_edges.append((i, tg, p))
